@@ -399,6 +399,22 @@ def r2_dedup(prog, rep: Report, sf: SortedFacts):
         if _is_gather_of(nval, f, ks):
             results.append((True, "re-ordering of the key storage by a permutation", n))
             continue
+        # [k for k, _ in sorted(zip(self.<keys>, values), key=..)]: the first components of the re-ordered (key, value) pairs
+        def _sorted_zip_projection(v) -> bool:
+            if not (isinstance(v, ast.ListComp) and len(v.generators) == 1 and not v.generators[0].ifs):
+                return False
+            g_ = v.generators[0]
+            if not (isinstance(g_.target, ast.Tuple) and g_.target.elts and isinstance(v.elt, ast.Name)
+                    and isinstance(g_.target.elts[0], ast.Name) and g_.target.elts[0].id == v.elt.id):
+                return False
+            it_ = flow.expand(g_.iter) if isinstance(g_.iter, ast.Name) else g_.iter
+            if not (isinstance(it_, ast.Call) and src(it_.func) == "sorted" and it_.args):
+                return False
+            z = flow.expand(it_.args[0]) if isinstance(it_.args[0], ast.Name) else it_.args[0]
+            return isinstance(z, ast.Call) and src(z.func) == "zip" and bool(z.args) and dotted(z.args[0]) == (f.self_name, ks)
+        if _sorted_zip_projection(nval):
+            results.append((True, "re-ordering of the key storage: first components of sorted(zip(keys, values))", n))
+            continue
         if _same_class_storage(n, nval, param, c.name, ks):
             results.append((True, "key storage of another instance of the same class (unique by this rule)", n))
             continue
